@@ -1015,6 +1015,9 @@ func (c *Check) genesisImportsAll(rule string) {
 				if g.T.Op == "ok" && (strings.Contains(gs, "ValidateGenesis") || strings.Contains(gs, ".GenesisState."+F)) {
 					continue
 				}
+				if !g.Neg && g.T.Op == "nonempty" && len(g.T.A) == 1 && strings.HasSuffix(stripConv(g.T.A[0]).Op, ".GenesisState."+F) {
+					continue // the collection itself is not empty (the loop is entered)
+				}
 				extra = append(extra, g.String())
 			}
 			if len(extra) > 0 {
